@@ -35,6 +35,7 @@ THEOREMS = [
     "SyneTune.C19.moasha_stop_at_max",
     "SyneTune.C19.moasha_result_uses_bracket",
     "SyneTune.C19.moasha_nds_layers",
+    "SyneTune.C19.moasha_nds_rank_bounds",
 ]
 TRUSTED = [
     "hand-written models lean/SyneTune/Model/{Pareto,Moasha}.lean tied to /repo by the pareto / moasha correspondence streams",
@@ -49,7 +50,7 @@ ASSUMPTIONS = [
     "the bracket index drawn in on_trial_add from numpy's global generator is an input of the model",
     "rung milestones of each bracket are read from the real _Bracket objects (float log/pow in the constructor)",
 ]
-RULE = ("point-set cases: N in 0..12 (thorough 0..40) points of dimension 1..5 on small integer grids, duplicate pools, "
+RULE = ("point-set cases: N in 0..14 (thorough 0..40) points of dimension 1..5 on small integer grids, duplicate pools, "
         "constant sets, chains, antichains, negative values and general-position doubles; every case runs "
         "pareto_efficient, nondominated_sort for several (dim, max_items, flatten) incl. dim=None and max_items=0, "
         "NonDominatedPriority and FixedObjectivePriority; non-trivial iff the mask has both values. "
@@ -66,7 +67,7 @@ RULE = ("point-set cases: N in 0..12 (thorough 0..40) points of dimension 1..5 o
 def gen_points_spec(rng, tier):
     big = tier == "thorough"
     d = rng.choice([1, 2, 2, 2, 3, 3, 4, 5])
-    n = rng.choice([0, 1, 2, 3, 4, 5, 6, 8, 10, 12]) if not big else rng.choice([0, 1, 2, 3, 5, 8, 12, 20, 30, 40])
+    n = rng.choice([0, 1, 2, 3, 4, 5, 6, 6, 7, 8, 8, 9, 10, 12, 12, 14]) if not big else rng.choice([0, 1, 2, 3, 5, 6, 8, 10, 12, 16, 20, 30, 40])
     combos = []
     dims = [None] + list(range(d)) + [-1]
     for _ in range(rng.choice([2, 3, 4])):
@@ -101,7 +102,7 @@ def gen_moasha_spec(rng, tier):
 
 
 def gen_cases(rng, tier):
-    n_pts, n_mo = (120, 60) if tier == "quick" else (2500, 700)
+    n_pts, n_mo = (240, 100) if tier == "quick" else (2500, 700)
     for _ in range(n_pts):
         yield gen_points_spec(rng, tier)
     for _ in range(n_mo):
